@@ -35,7 +35,7 @@ RULE += ' added since: legacy and wide source encodings (utf-16/32) on file path
 ASSUMPTIONS = ["mako-render is driven without --output-encoding (it crashes with that option, outside the statement)",
                "context values are strings so that the command line can pass them"]
 MIN_NONTRIVIAL = 100
-REQUIRED_COUNTERS = ["templates", "paths_compared", "hash_seed_children", "cmdline_runs", "get_def_compared", "module_template_renders", "lookup_variants", "source_checks"]
+REQUIRED_COUNTERS = ["templates", "paths_compared", "hash_seed_children", "cmdline_runs", "get_def_compared", "module_template_renders", "lookup_variants", "source_checks", "inheriting_get_def_compared"]
 SHARDS = {"quick": 16, "thorough": 32}
 
 _st = {}
@@ -438,6 +438,61 @@ def run_lookup_variants(r, res):
         shutil.rmtree(d, ignore_errors=True)
 
 
+def run_inheriting_get_def(r, res):
+    """a def of an INHERITING template rendered alone through get_def(name).render*() writes what the same def writes
+    inside a full render of that template (its local/self are the template, parent the inherited one), on every
+    compilation path"""
+    L = _st["TemplateLookup"]
+    _st["n"] += 1
+    d = os.path.join(_st["tmp"], "ig%d" % _st["n"])
+    root = os.path.join(d, "root")
+    os.makedirs(root)
+    try:
+        k = r.randint(1, 9)
+        reads = r.sample(["${local.who()}", "${parent.who()}", "${self.who()}", "${local.uri}", "${parent.uri}", "${local.attr.tone}", "${parent.attr.tone}", "${x}"], r.randint(2, 5))
+        mid = r.random() < 0.5
+        texts = {
+            "base.html": '<%%! tone = "bt" %%><%%def name="who()">base%d</%%def>BASE(${next.body()})' % k,
+            "child.html": '<%%inherit file="%s"/><%%! tone = "ct" %%><%%def name="who()">child%d</%%def><%%def name="me()">[me:%s]</%%def>'
+                          "CHILD{${self.me()}}" % ("mid.html" if mid else "base.html", k, "|".join(reads)),
+        }
+        if mid:
+            texts["mid.html"] = '<%%inherit file="base.html"/><%%! tone = "mt" %%><%%def name="who()">mid%d</%%def>MID(${next.body()})' % k
+        for nm, t in texts.items():
+            with open(os.path.join(root, nm), "w") as f:
+                f.write(t)
+        import re as _re
+
+        results = {}
+        for vname in ("files", "moddir", "moddir-again", "put_string"):
+            if vname == "put_string":
+                lk = L()
+                for nm, t in texts.items():
+                    lk.put_string(nm, t)
+            else:
+                lk = L(directories=[root], **({} if vname == "files" else {"module_directory": os.path.join(d, "mods")}))
+            res.evaluations += 1
+            try:
+                t = lk.get_template("child.html")
+                full = t.render_unicode(x="X1")
+                inside = _re.search(r"\[me:.*?\]", full).group(0)
+                alone = [t.get_def("me").render_unicode(x="X1"), t.get_def("me").render(x="X1")]
+            except Exception as e:
+                res.violate("inheriting-get-def", "lookup %s, templates %r: %s: %s" % (vname, texts, type(e).__name__, e))
+                continue
+            res.count("inheriting_get_def_compared")
+            results[vname] = inside
+            for a in alone:
+                if a != inside:
+                    res.violate("inheriting-get-def", "lookup %s, templates %r: get_def('me') rendered alone gives %r, inside a full render of child.html the "
+                                "same def writes %r" % (vname, texts, a, inside))
+        if len(set(results.values())) > 1:
+            res.violate("inheriting-get-def", "templates %r: the def renders differently per path: %r" % (texts, results))
+        res.nontrivial("inh-getdef", sorted(texts.items()))
+    finally:
+        shutil.rmtree(d, ignore_errors=True)
+
+
 def gen_cases(tier, seed):
     n = 640 if tier == "quick" else 6000
     per = 10
@@ -445,6 +500,8 @@ def gen_cases(tier, seed):
         yield {"kind": "batch", "seed": seed, "index": i, "n": per}
     for i in range(8 if tier == "quick" else 100):
         yield {"kind": "lookup", "seed": seed, "index": i}
+    for i in range(6 if tier == "quick" else 60):
+        yield {"kind": "inhdef", "seed": seed, "index": i}
 
 
 def run_case(case):
@@ -467,6 +524,10 @@ def run_case(case):
             shutil.rmtree(base, ignore_errors=True)
     elif case["kind"] == "lookup":
         run_lookup_variants(common.rng_for(case["seed"], "c08lk", case["index"]), res)
+    elif case["kind"] == "inhdef":
+        r = common.rng_for(case["seed"], "c08ig", case["index"])
+        for _ in range(5):
+            run_inheriting_get_def(r, res)
     elif case["kind"] == "one":
         _st["n"] += 1
         base = os.path.join(_st["tmp"], "o%d" % _st["n"])
